@@ -187,7 +187,7 @@ def run(ctx):
         done += k
     # the same generator with every annotation wrapped in Annotated[..., metadata]
     na = 600 if ctx.tier == "quick" else 8000
-    for mode in (True, "newtype", "typealias"):
+    for mode in S.WRAP_MODES:
         if ctx.time_left() > 30:
             run_stream(ctx, gen_cases(ctx, na // 2 if mode is not True else na, depth), annot=mode)
     # format dialects: same generator, dialect handed to the basic codec
